@@ -128,6 +128,13 @@ pub struct Cfg {
     pub inject_size: usize,
     /// strays per network round (each delivered one microsecond after the previous one)
     pub inject_burst: u64,
+    /// per-mille rate (per network round with traffic) of re-sending a genuine client datagram to the server from a
+    /// THIRD source address (off-path attacker spoofing / replaying from elsewhere; never validated)
+    pub spoof_pm: u64,
+    /// only datagrams of at most this many bytes are used for spoofing (0 = any)
+    pub spoof_max_len: usize,
+    /// application close by the SERVER at this virtual time (0 = never)
+    pub sclose_at_ms: u64,
     /// how many leading bytes of each datagram are recorded in `wire` lines
     pub wire_head: usize,
     /// enable stateless resets on the server (keyed token generator); off = s2n-quic default
@@ -189,6 +196,9 @@ impl Default for Cfg {
             inject_kind_pm: 0,
             inject_size: 0,
             inject_burst: 1,
+            spoof_pm: 0,
+            spoof_max_len: 0,
+            sclose_at_ms: 0,
             wire_head: 48,
             sreset: false,
         }
@@ -309,6 +319,9 @@ impl Cfg {
                 "inject_kind_pm" => c.inject_kind_pm = n()?,
                 "inject_size" => c.inject_size = n()? as usize,
                 "inject_burst" => c.inject_burst = n()?,
+                "spoof_pm" => c.spoof_pm = n()?,
+                "spoof_max_len" => c.spoof_max_len = n()? as usize,
+                "sclose_at_ms" => c.sclose_at_ms = n()?,
                 "wire_head" => c.wire_head = n()? as usize,
                 "sreset" => c.sreset = n()? != 0,
                 _ => return Err(format!("unknown key {k}")),
